@@ -846,10 +846,27 @@ func (ef *errflow) untestedPath(e ssa.Value, C map[ssa.Value]bool, testBlocks ma
 		}
 		seen := map[*ssa.BasicBlock]bool{}
 		stack := []*ssa.BasicBlock{}
+		// `e, open := <-errs; if !open { break }`: on the not-open edge the channel was closed and e is the zero
+		// value, not an error that still has to be looked at
+		closedEdge := map[[2]*ssa.BasicBlock]bool{}
+		if ex, ok := v.(*ssa.Extract); ok {
+			if u, ok := ex.Tuple.(*ssa.UnOp); ok && u.Op == token.ARROW && u.CommaOk {
+				for _, b := range f.Blocks {
+					cond, tb, fb := condEdge(b)
+					if un, ok := cond.(*ssa.UnOp); ok && un.Op == token.NOT {
+						cond, tb, fb = un.X, fb, tb
+					}
+					_ = tb
+					if e1, ok := cond.(*ssa.Extract); ok && e1.Tuple == ssa.Value(u) && e1.Index == 1 && fb != nil {
+						closedEdge[[2]*ssa.BasicBlock{b, fb}] = true
+					}
+				}
+			}
+		}
 		{
 			eq := sentinelEqSucc(start, C)
 			for _, sc := range start.Succs {
-				if sc == eq && eq != nil {
+				if (sc == eq && eq != nil) || closedEdge[[2]*ssa.BasicBlock{start, sc}] {
 					continue
 				}
 				stack = append(stack, sc)
@@ -886,7 +903,7 @@ func (ef *errflow) untestedPath(e ssa.Value, C map[ssa.Value]bool, testBlocks ma
 				// (the tolerated sentinel, idiom I4); only the other edge still has to meet a nil test
 				eq := sentinelEqSucc(b, C)
 				for _, sc := range b.Succs {
-					if sc == eq && eq != nil {
+					if (sc == eq && eq != nil) || closedEdge[[2]*ssa.BasicBlock{b, sc}] {
 						continue
 					}
 					stack = append(stack, sc)
